@@ -1,11 +1,11 @@
 #!/bin/bash
 # Run every stored seeded change against the checks that are supposed to catch it (meta.json: caught_by).
 # usage: tools/run_seeds.sh [name-filter]
-cd /verif
+cd ${VERIF_ROOT:-/verif}
 for d in seeded/*/; do
   name=$(basename $d)
   [[ -n "$1" && "$name" != *$1* ]] && continue
   props=$(python3 -c "import json;print(' '.join(json.load(open('$d/meta.json'))['caught_by']))")
   echo "=== $name -> $props"
-  tools/try_seed.sh /verif/$d/patch.diff $props 2>&1 | grep -E "^\[|VIOLATION" | cut -c1-150 | awk '/^\[/{print} /VIOLATION/{v++} END{print "   violations reported: " v+0}'
+  tools/try_seed.sh ${VERIF_ROOT:-/verif}/$d/patch.diff $props 2>&1 | grep -E "^\[|VIOLATION" | cut -c1-150 | awk '/^\[/{print} /VIOLATION/{v++} END{print "   violations reported: " v+0}'
 done
